@@ -105,6 +105,24 @@ pub struct ParCfg {
     pub max_len: usize,
     pub byref: bool,
     pub delay_seed: u64,
+    /// 0 = no filter stage; otherwise a `filter` stage keeps the items with keep(x, seed),
+    /// which makes some fold leaves empty (an unindexed iterator with holes).
+    pub filter_seed: u64,
+}
+
+#[inline]
+fn mix(x: f64, seed: u64) -> u64 {
+    let mut h = x.to_bits() ^ seed.wrapping_mul(0x9E3779B97F4A7C15);
+    h ^= h >> 33;
+    h = h.wrapping_mul(0xff51afd7ed558ccd);
+    h ^= h >> 33;
+    h
+}
+
+/// The filter predicate of the `P` op (mirrored in monitors/c19.py).
+#[inline]
+pub fn keep(x: f64, seed: u64) -> bool {
+    seed == 0 || mix(x, seed) % 3 != 0
 }
 
 pub trait Est: Sized + Clone {
@@ -174,10 +192,7 @@ fn delay(x: f64, seed: u64) {
     if seed == 0 {
         return;
     }
-    let mut h = x.to_bits() ^ seed.wrapping_mul(0x9E3779B97F4A7C15);
-    h ^= h >> 33;
-    h = h.wrapping_mul(0xff51afd7ed558ccd);
-    h ^= h >> 33;
+    let h = mix(x, seed);
     match h % 16 {
         0 | 1 => std::thread::yield_now(),
         2 => {
@@ -199,22 +214,23 @@ where
     let min_len = cfg.min_len;
     let max_len = cfg.max_len;
     let byref = cfg.byref;
+    let fseed = cfg.filter_seed;
     with_pool(cfg.threads, move || {
         if byref {
             let it = data.par_iter();
             match (min_len, max_len) {
-                (0, 0) => it.map(|x| { delay(*x, seed); x }).collect(),
-                (a, 0) => it.with_min_len(a).map(|x| { delay(*x, seed); x }).collect(),
-                (0, b) => it.with_max_len(b).map(|x| { delay(*x, seed); x }).collect(),
-                (a, b) => it.with_min_len(a).with_max_len(b).map(|x| { delay(*x, seed); x }).collect(),
+                (0, 0) => it.filter(|x| keep(**x, fseed)).map(|x| { delay(*x, seed); x }).collect(),
+                (a, 0) => it.with_min_len(a).filter(|x| keep(**x, fseed)).map(|x| { delay(*x, seed); x }).collect(),
+                (0, b) => it.with_max_len(b).filter(|x| keep(**x, fseed)).map(|x| { delay(*x, seed); x }).collect(),
+                (a, b) => it.with_min_len(a).with_max_len(b).filter(|x| keep(**x, fseed)).map(|x| { delay(*x, seed); x }).collect(),
             }
         } else {
             let it = data.to_vec().into_par_iter();
             match (min_len, max_len) {
-                (0, 0) => it.map(|x| { delay(x, seed); x }).collect(),
-                (a, 0) => it.with_min_len(a).map(|x| { delay(x, seed); x }).collect(),
-                (0, b) => it.with_max_len(b).map(|x| { delay(x, seed); x }).collect(),
-                (a, b) => it.with_min_len(a).with_max_len(b).map(|x| { delay(x, seed); x }).collect(),
+                (0, 0) => it.filter(|x| keep(*x, fseed)).map(|x| { delay(x, seed); x }).collect(),
+                (a, 0) => it.with_min_len(a).filter(|x| keep(*x, fseed)).map(|x| { delay(x, seed); x }).collect(),
+                (0, b) => it.with_max_len(b).filter(|x| keep(*x, fseed)).map(|x| { delay(x, seed); x }).collect(),
+                (a, b) => it.with_min_len(a).with_max_len(b).filter(|x| keep(*x, fseed)).map(|x| { delay(x, seed); x }).collect(),
             }
         }
     })
